@@ -183,6 +183,78 @@ func callArgs(files []*ast.File, pkg, fn, callee string, n int) [][]string {
 	return res
 }
 
+// spendSwitch extracts HandleAccountSpend's `switch err` that follows
+// `err := m.cfg.Store.PendingBatch()`: per case, its labels and whether its
+// body calls MarkBatchComplete.
+func spendSwitch(files []*ast.File) [][2]string {
+	fd := findFunc(files, "manager.HandleAccountSpend")
+	if fd == nil {
+		fail("account.manager.HandleAccountSpend not found")
+		return nil
+	}
+	var res [][2]string
+	sawAssign := false
+	done := false
+	ast.Inspect(fd.Body, func(n ast.Node) bool {
+		if done {
+			return false
+		}
+		if as, ok := n.(*ast.AssignStmt); ok && len(as.Rhs) == 1 &&
+			exprString(as.Rhs[0]) == "m.cfg.Store.PendingBatch()" && exprString(as.Lhs[0]) == "err" {
+			sawAssign = true
+		}
+		sw, ok := n.(*ast.SwitchStmt)
+		if !ok || !sawAssign || sw.Tag == nil || exprString(sw.Tag) != "err" {
+			return true
+		}
+		for _, c := range sw.Body.List {
+			cc := c.(*ast.CaseClause)
+			label := "default"
+			if cc.List != nil {
+				var ls []string
+				for _, e := range cc.List {
+					ls = append(ls, exprString(e))
+				}
+				label = strings.Join(ls, ",")
+			}
+			calls := "no"
+			for _, st := range cc.Body {
+				ast.Inspect(st, func(m ast.Node) bool {
+					if ce, ok := m.(*ast.CallExpr); ok &&
+						exprString(ce.Fun) == "m.cfg.Store.MarkBatchComplete" {
+						calls = "MarkBatchComplete"
+					}
+					return true
+				})
+			}
+			res = append(res, [2]string{label, calls})
+		}
+		done = true
+		return false
+	})
+	if !done {
+		fail("account.manager.HandleAccountSpend: `switch err` after Store.PendingBatch() not found")
+	}
+	return res
+}
+
+// methodCalls lists the selector calls inside a method body.
+func methodCalls(files []*ast.File, pkg, fn string) []string {
+	fd := findFunc(files, fn)
+	if fd == nil {
+		fail("%s.%s not found", pkg, fn)
+		return nil
+	}
+	var res []string
+	ast.Inspect(fd.Body, func(n ast.Node) bool {
+		if ce, ok := n.(*ast.CallExpr); ok {
+			res = append(res, exprString(ce.Fun))
+		}
+		return true
+	})
+	return res
+}
+
 func leanPairList(xs [][2]string) string {
 	var q []string
 	for _, x := range xs {
@@ -254,5 +326,10 @@ func genC06() {
 		leanArgLists(callArgs(dbFiles, "clientdb", "DB.UpdateOrders", "updateOrder", 2)))
 	l.p("def directUpdateAccountArgs : List (List String) := %s",
 		leanArgLists(callArgs(dbFiles, "clientdb", "DB.UpdateAccount", "updateAccount", 2)))
+	l.p("def spendSwitch : List (String × String) := %s", leanPairList(spendSwitch(acctFiles)))
+	l.p("def accountStorePendingBatchCalls : List String := %s",
+		leanStrList(methodCalls(pkgFiles("."), "pool", "accountStore.PendingBatch")))
+	l.p("def fundingDeletePendingBatchCalls : List String := %s",
+		leanStrList(methodCalls(pkgFiles("funding"), "funding", "Manager.DeletePendingBatch")))
 	l.p("end Pool.Gen.C06")
 }
